@@ -176,6 +176,9 @@ def rule_c09_terms(ctx, prog, rule="R19"):
         w = k["root"].where()
         upd = k["update"]
         ok_shape = upd[0] == "ite" and upd[3] == ("keep",) and upd[1][0] == "cmp"
+        if ok_shape and upd[1][1] in ("<", "<=") and upd[1][2] == ("sym", "ACC"):
+            # mirrored comparison `max < candidate`
+            upd = ("ite", ("cmp", {"<": ">", "<=": ">="}[upd[1][1]], upd[1][3], upd[1][2]), upd[2], upd[3])
         ctx.ob(rule, "linf_dist/running-max", ok_shape and upd[1][1] in (">", ">=") and upd[1][3] == ("sym", "ACC") and upd[1][2] == upd[2],
                w, "max ← |a−b| iff |a−b| > max, else unchanged" if ok_shape else "update is `%s`" % show(upd), what="not a running maximum")
         ctx.ob(rule, "linf_dist/init", k["init"] == ("num", 0), w, "starts at zero()", what="maximum does not start at 0")
@@ -232,6 +235,31 @@ def rule_c09_terms(ctx, prog, rule="R19"):
             rec.equal("%s/formula" % name, root.where(), t, spec, "derived measure is not the documented function", name)
         except Unrecognised as ex:
             unrec(ctx, rule, "%s/formula" % name, root.where(), ex)
+    # PSNR: the peak value is converted to f64 before any arithmetic (squaring it in the element type overflows for
+    # integer images: 255² does not fit i16, 65535² does not fit i32)
+    root = prog.method("DeviationExt", "peak_signal_to_noise_ratio")
+    try:
+        from .terms import TypedKernel
+        tt = routine_value(prog, root, param_syms={3: ("real", "maxv")}, kernel_cls=TypedKernel)
+        bad = []
+
+        def scan(t, parent):
+            if not isinstance(t, tuple):
+                return
+            if t == ("real", "maxv"):
+                if not (parent is not None and parent[0] == "conv" and parent[1].startswith("to_f")):
+                    bad.append(show(parent) if parent is not None else "maxv")
+                return
+            for x in t[1:]:
+                if isinstance(x, tuple):
+                    scan(x, t)
+        scan(tt, None)
+        ctx.ob(rule, "peak_signal_to_noise_ratio/peak-converted-first", not bad, root.where(),
+               "maxv enters the formula only as maxv.to_f64(): no arithmetic in the element type" if not bad else
+               "maxv takes part in element-type arithmetic before the conversion to f64 (`%s`): overflows for integer element types whose "
+               "range holds maxv but not maxv²" % bad[0][:80], what="PSNR overflows for representable peaks")
+    except Unrecognised as ex:
+        unrec(ctx, rule, "peak_signal_to_noise_ratio/peak-converted-first", root.where(), ex)
     # count_neq = len − count_eq
     root = prog.method("DeviationExt", "count_neq")
     try:
@@ -300,7 +328,7 @@ def _leaf_for(prog, body, param_syms, extra=None):
     return leaf
 
 
-def routine_value(prog, root, param_syms=None, extra=None):
+def routine_value(prog, root, param_syms=None, extra=None, kernel_cls=None):
     """T-term of the Ok(..) value a routine returns on its success path (single success definition);
     `g(..).map(f)` on a Result/Option is f applied to g's success value"""
     ps = dict(param_syms or {})
@@ -332,7 +360,7 @@ def routine_value(prog, root, param_syms=None, extra=None):
         if isinstance(x, tuple) and x[0] == "call" and (x[2].startswith("deviation::") or x[2].startswith("summary_statistics::")):
             return ("sym", x[1])
         return None
-    K = Kernel(prog, tb, leaf)
+    K = (kernel_cls or Kernel)(prog, tb, leaf)
     return K.term(finals[0])
 
 
@@ -1317,7 +1345,7 @@ def rule_c12_structure(ctx, prog, rule="R13"):
         if ok:
             a_ = news[0]
 
-            def from_extremum(e, which):
+            def from_extremum(e, which, depth_=0):
                 for _ in range(4):
                     e = ds(e)
                     if isinstance(e, tuple) and e[0] == "call" and e[1] == "clone" and e[3]:
@@ -1325,6 +1353,17 @@ def rule_c12_structure(ctx, prog, rule="R13"):
                         continue
                     break
                 u = unwrap_try(e)
+                if isinstance(u, tuple) and u[0] == "field" and str(u[2]) in ("0", "1") and depth_ < 2:
+                    # component of the tuple a private helper returns: `let (min, max) = min_and_max(a)?`
+                    base = unwrap_try(u[1])
+                    if isinstance(base, tuple) and base[0] == "call":
+                        cb = prog.bodies.get(base[2])
+                        if cb is not None and cb.key not in prog.exported and not cb.is_closure:
+                            svs = [ds(v) for _, v in success_values(prog.tracked(cb))]
+                            if len(svs) == 1 and isinstance(svs[0], tuple) and svs[0][0] == "agg" and len(svs[0][3]) == 2:
+                                comp = gsubst(ds(svs[0][3][int(u[2])]), {i + 1: ds(x) for i, x in enumerate(base[3])})
+                                return from_extremum(comp, which, depth_ + 1)
+                    return False
                 return isinstance(u, tuple) and u[0] == "call" and u[1] == which and ds(u[3][0])[:2] == ("param", 1)
             ok = from_extremum(a_[1], "min") and from_extremum(a_[2], "max")
             detail = "EquiSpaced::new(width, a.min()?, a.max()?)" if ok else "min/max arguments are `%s`, `%s`" % (fmt(a_[1])[:60], fmt(a_[2])[:60])
@@ -1485,6 +1524,26 @@ def rule_c18_moments(ctx, prog, rule="R13"):
     ctx.ob(rule, "moments/prefix-independent", okm, mo.where(), detail, what="raw moment k depends on the requested order")
 
 
+def _is_iteration_item(prog, pb, pe):
+    """pe is the item parameter of a closure that is handed to for_each/map/… of an iteration (`xs.iter().for_each(|&x| …)`)"""
+    if not (pb.is_closure and isinstance(pe, tuple) and pe[0] == "param" and pe[1] >= 2):
+        return False
+    site = prog.closure_site(pb.key)
+    if site is None:
+        return False
+    ob_, obb, osi, _ups = site
+    # the call that consumes the closure value
+    for cbb, t in ob_.calls():
+        if callee_name(t) not in ("for_each", "try_for_each", "map", "fold", "try_fold", "all", "any", "find"):
+            continue
+        for a in ob_.call_arg_exprs(cbb)[1:]:
+            a = ds(a)
+            if isinstance(a, tuple) and a[0] == "agg" and a[1] == "closure" and a[2] == pb.key:
+                recv = ds(ob_.call_arg_exprs(cbb)[0])
+                return isinstance(recv, tuple) and recv[0] == "call" and recv[1] in ("iter", "into_iter", "iter_mut", "zip", "indexed_iter", "enumerate")
+    return False
+
+
 def rule_c18_quantiles(ctx, prog, rule="R13"):
     qa = prog.method("QuantileExt", "quantile_axis_mut")
     # .map(|a| a.index_axis_move(axis, 0))
@@ -1527,6 +1586,8 @@ def rule_c18_quantiles(ctx, prog, rule="R13"):
                         pe = ds(pe)
                         # q: an element of an iteration over qs ; axis_len: len_of(data, axis)
                         if any(x[0] == "call" and x[1] == "next" for x in walk(pe) if isinstance(x, tuple)):
+                            args.append("q-element")
+                        elif _is_iteration_item(prog, pb, pe):
                             args.append("q-element")
                         else:
                             args.append(fmt(canon_expr(prog, pb, pe))[:60])
